@@ -67,7 +67,11 @@ VideoOfN(n) == {[kind |-> "video", ts |-> 1000 * sc, durs |-> DurPat(dp, n, sc),
 VideoTracks == UNION {VideoOfN(n) : n \in NVideo}
 AudioOfN(n) == {[kind |-> "audio", ts |-> 500, durs |-> DurPat("const", n, 1), sizes |-> [i \in 1 .. n |-> 2], ctos |-> <<>>,
                  sync |-> {0}, spc |-> ch, sdtp |-> FALSE] : ch \in {<<n>>, Rep(1, n)}}
-AudioTracks == AudioOfN(3) \cup AudioOfN(7)
+\* a sparse track: few samples, the last one long - the end time often falls INSIDE its last sample, so the track is kept whole
+\* while the reference track loses samples (its chunks then move although none of its tables changes)
+AudioLongLast(n) == {[kind |-> "audio", ts |-> 500, durs |-> [i \in 1 .. n |-> IF i = n THEN 40 ELSE 5], sizes |-> [i \in 1 .. n |-> 2], ctos |-> <<>>,
+                      sync |-> {0}, spc |-> ch, sdtp |-> FALSE] : ch \in {<<n>>, Rep(1, n)}}
+AudioTracks == AudioOfN(3) \cup AudioOfN(7) \cup AudioLongLast(2)
 Files == {<<v>> : v \in VideoTracks} \cup (IF WithAudio THEN {<<v, a>> : v \in VideoTracks, a \in AudioTracks} \cup {<<a>> : a \in AudioTracks} ELSE {})
 TotalMs(tr) == (Total(tr.durs) * 1000) \div tr.ts
 \* requested durations: every sample start of the reference track in ms, +-1 ms, and 1 ms / beyond the end
